@@ -232,6 +232,7 @@ type apCall struct {
 	allow          bool
 	restartClass   bool
 	runningAt      bool // reported running (as the engine defines it) when the call was issued
+	stoppedAtFirstEffect bool // ... and no longer so when the call began to take effect (a stop got in between)
 	effects        []apEffect
 	cfgWrites      int
 	overlapped     bool // another plan/apply call was in flight at some time during this call
@@ -322,6 +323,7 @@ func (o *Oracles) beforeFirstEffect(w *World, client string) {
 		return
 	}
 	c.firstChecked = true
+	c.stoppedAtFirstEffect = !engineSaysRunning(w.memStatus())
 	now, err := c.st.provisioner().Plan(context.Background(), c.desired)
 	if err != nil {
 		return
@@ -594,7 +596,7 @@ func (o *Oracles) onApplyResult(w *World, st *Stack, c *apCall, planStable bool,
 		}
 	}
 	// (c) without operator authorisation a running pipeline is not touched
-	if !c.allow && c.runningAt && !c.statusMoved && !c.overlapped && len(c.effects) > 0 {
+	if !c.allow && c.runningAt && !c.stoppedAtFirstEffect && !c.statusMoved && !c.overlapped && len(c.effects) > 0 {
 		w.violate("C16", "unauthorised-live-apply", fmt.Sprintf("apply %q was not authorised to touch a running pipeline, yet it had effects: %v (result: %q)", c.kind, eff, firstLine(msg)))
 		return
 	}
